@@ -189,12 +189,12 @@ static void add_predefine (char *, int, char *);
 static int expand_define (void);
 static void add_input (const char *);
 static int cond_get_exp (int);
-static void inc_lexically_normal (const char* abs_base, const char *name, char *dest);
+static void inc_lexically_normal (const char* abs_base, const char *name, char *dest, size_t size);
 static void add_quoted_predefine (char *, char *);
 static void lexerror (char *);
 static int skip_to (char *, char *);
 static void handle_cond (int);
-static int inc_open (char *, const char *);
+static int inc_open (char *, size_t, const char *);
 static void handle_include (const char *, int);
 static int get_terminator (char *);
 static int get_array_block (char *);
@@ -213,10 +213,16 @@ static void yyerrorp (char *);
 #define LEXER
 #include "preprocess.c"
 
-static void inc_lexically_normal (const char* abs_base, const char *name, char *dest) {
+static void inc_lexically_normal (const char* abs_base, const char *name, char *dest, size_t size) {
   char* slash;
   const char *from;
+  size_t len;
 
+  if (strlen (abs_base) >= size)
+    {
+      *dest = 0;
+      return;
+    }
   strcpy (dest, abs_base);
   if ((slash = strrchr (dest, '/')))	/* strip filename */
     *slash = 0;
@@ -232,44 +238,36 @@ static void inc_lexically_normal (const char* abs_base, const char *name, char *
       *dest = 0;		/* absolute path */
     }
 
-  /* process .. and . in the include header name */
+  /* process the include header name one component at a time: "..", "." and empty components ("//") never reach dest */
   while (*from)
     {
-      if (!strncmp (from, "../", 3) || !strcmp (from, ".."))
+      slash = strchr (from, '/');
+      len = slash ? (size_t) (slash - from) : strlen (from);
+
+      if (len == 2 && from[0] == '.' && from[1] == '.')
         {
           if (*dest == 0)	/* including from above mudlib is NOT allowed */
-            break;
+            return;
           slash = strrchr (dest, '/');
           if (slash == NULL)	/* 1 component in dest */
             *dest = 0;
           else
             *slash = 0;
-          from += from[2] ? 3 : 2;	/* skip "../" (or a final "..", which used to reach open() verbatim) */
         }
-      else if (!strncmp (from, "./", 2) || !strcmp (from, "."))
-        {
-          from += from[1] ? 2 : 1;
-        }
-      else
-        {			/* append first component to dest */
+      else if (len > 0 && !(len == 1 && from[0] == '.'))
+        {			/* append the component to dest */
+          if (strlen (dest) + 1 + len >= size)
+            {
+              *dest = 0;	/* does not fit: no such file */
+              return;
+            }
           if (*dest)
             strcat (dest, "/");	/* only if dest is not empty !! */
-          slash = strchr (from, '/');
-
-          if (slash)
-            {			/* from has 2 or more components */
-              while (*from == '/')	/* find the start */
-                from++;
-              strncat (dest, from, slash - from);
-              for (from = slash + 1; *from == '/'; from++);
-            }
-          else
-            {
-              /* this was the last component */
-              strcat (dest, from);
-              break;
-            }
+          strncat (dest, from, len);
         }
+      from += len;
+      while (*from == '/')
+        from++;
     }
 }
 
@@ -378,13 +376,13 @@ static int skip_to (char *token, char *atoken)
  *             If it contains dot or dot-dot in the path, it is normalized using current_file as the base.
  * @return File descriptor, or -1 on failure.
  */
-static int inc_open (char *buf, const char *name) {
+static int inc_open (char *buf, size_t size, const char *name) {
 
   int i, fd;
   char *p;
 
-  inc_lexically_normal (current_file, name, buf);
-  if ((fd = FILE_OPEN (buf, O_RDONLY)) != -1)
+  inc_lexically_normal (current_file, name, buf, size);
+  if (*buf && (fd = FILE_OPEN (buf, O_RDONLY)) != -1)
     {
       opt_trace (TT_COMPILE|3, "opened (fd %d): \"%s\"", fd, buf);
       return fd;
@@ -402,6 +400,8 @@ static int inc_open (char *buf, const char *name) {
       if (!inc_list)
         break;
       if (inc_list[i] == 0)
+        continue;
+      if (strlen (inc_list[i]) + 1 + strlen (name) >= size)
         continue;
       sprintf (buf, "%s/%s", inc_list[i], name);
       if ((fd = FILE_OPEN (buf, O_RDONLY)) != -1)
@@ -481,7 +481,7 @@ static void handle_include (const char *inc_name, int optional) {
     {
       include_error ("Maximum include depth exceeded");
     }
-  else if ((fd = inc_open (buf, name)) != -1) /* open header file */
+  else if ((fd = inc_open (buf, sizeof (buf), name)) != -1) /* open header file */
     {
       is = ALLOCATE (incstate_t, TAG_COMPILER, "handle_include: 1");
       is->yyin_desc = yyin_desc;
